@@ -2,7 +2,11 @@
 
 package util
 
-import "github.com/fatedier/frp/verif"
+import (
+	"crypto/subtle"
+
+	"github.com/fatedier/frp/verif"
+)
 
 // RandIDWithLen: the id has the requested length and is derived from
 // crypto/rand (C12: "a new, unpredictable run id").
@@ -26,4 +30,27 @@ func verif_RandIDWithLen(idLen int) {
 func verif_RandID() {
 	id, err := RandID()
 	verif.Ensures(err != nil || len(id) == 16, "sixteen_chars")
+}
+
+// Library contract (trusted, listed): subtle.ConstantTimeCompare answers 1
+// exactly for equal byte strings (same length, same bytes).
+//
+//verif:contract crypto/subtle.ConstantTimeCompare
+//verif:trusted
+func verif_subtle_ConstantTimeCompare(x, y []byte) {
+	r := subtle.ConstantTimeCompare(x, y)
+	verif.Ensures((r == 1) == verif.Same(x, y) && (r == 0 || r == 1), "one_iff_equal")
+}
+
+// ConstantTimeEqString is string equality - in particular a prefix, a longer
+// string or the empty string never equals a non-empty secret (C04 / C07 / C08:
+// every credential comparison in the repository goes through it).
+//
+//verif:contract ~/pkg/util/util.ConstantTimeEqString
+//verif:props C04 C07 C08
+func verif_ConstantTimeEqString(a, b string) {
+	verif.ResetEvents()
+	eq := ConstantTimeEqString(a, b)
+	verif.Ensures(eq == (a == b), "equal_iff_the_same_string")
+	verif.Ensures(verif.CallCount("subtle.ConstantTimeCompare") == 1 && verif.Same(verif.NthArg[[]byte]("subtle.ConstantTimeCompare", 0, 0), []byte(a)) && verif.Same(verif.NthArg[[]byte]("subtle.ConstantTimeCompare", 0, 1), []byte(b)), "whole_strings_compared_in_constant_time")
 }
